@@ -152,7 +152,31 @@ def sm_functions(repo):
     return [f for f in sm.functions() if qualname(f).startswith("QuantumState._") and ("_to_" in f.name or f.name.startswith("_initialize"))]
 
 
+def rule_density_signs(ctx: Ctx) -> None:
+    """sign.used: the density matrix of a stabilizer state is the product of the projectors (I + (-1)^r_i g_i)/2: the conversion must
+    read the tableau's sign vector; built from the unsigned Pauli strings alone, a state with a negative generator (|1> = <-Z>) is
+    converted to the state with all signs positive (|0>)."""
+    repo = ctx.repo
+    from ..rules.tableau import _phase_derived
+    m = repo.module(SRC)
+    fn = repo.anchor(SRC, "_stabilizer_to_density_pure")
+    ctx.touch(m, fn)
+    prods = [n for n in ast.walk(fn) if (isinstance(n, ast.Call) and call_name(n) in ("np.matmul", "np.dot")) or
+             (isinstance(n, ast.BinOp) and isinstance(n.op, ast.MatMult))]
+    if not prods:
+        raise AnalysisError("_stabilizer_to_density_pure: projector product not found")
+    if any(_phase_derived(fn, p_) for p_ in prods):
+        ctx.ok("sign.used", m, prods[0], what="projectors carry the generators' signs")
+    else:
+        ctx.fail("sign.used", m, prods[0],
+                 f"_stabilizer_to_density_pure multiplies the projectors `{short(prods[0], 70)}` built from the unsigned Pauli strings and never reads "
+                 f"the tableau's sign vector: a stabilizer state with a negative generator is converted to the density matrix of the state with all "
+                 f"signs positive (<-Z> gives |0><0| instead of |1><1|)", func="_stabilizer_to_density_pure",
+                 construct="_stabilizer_to_density_pure: signs of the generators ignored")
+
+
 def run(ctx: Ctx) -> None:
+    rule_density_signs(ctx)
     rule_helper_kinds(ctx)
     repo = ctx.repo
     numeric.rule_missing_return(ctx, SRC)
@@ -266,6 +290,7 @@ def _diag_view(src: str) -> str:
 
 
 KNOCKOUTS = [
+    Knockout("density-signs-ignored", SRC, sub_once("        stabilizer_elem = sign * sfu.get_stabilizer_element_by_string(generator)", "        stabilizer_elem = sfu.get_stabilizer_element_by_string(generator)"), "sign.used", "signs of the generators ignored", on_fixed_only=True),
     Knockout("s-to-g-clifford-arg", STATE, sub_once("            graph_list = rc.stabilizer_to_graph(rep.data.to_stabilizer())", "            graph_list = rc.stabilizer_to_graph(rep.data)"), "call.accepts", "receives a CliffordTableau", on_fixed_only=True),
     Knockout("dm-to-g-array-arg", STATE, sub_once("            new_rep = Graph(nx.from_numpy_array(new_data))", "            new_rep = Graph(new_data)"), "call.accepts", "adjacency array", on_fixed_only=True),
     Knockout("clifford-input-signs-dropped", SRC, sub_once("        tab = state.to_stabilizer()\n", "        tab = StabilizerTableau(state.stabilizer)\n"), "sign.carry", "without signs"),
